@@ -5,7 +5,7 @@
         EV = A<c> | R<c>:<hex or -> | r<c>:<hex or -> (writes to c fail) | E<c> | T<ms>
    out: one group per event separated by " ; ", tokens in a group separated by " ",
         "-" for an empty group.  token = auth:<c>:<hex> | seen:<c>:<hex> | hi:<c> |
-        bye:<c> | gone:<c> | refused:<c> *)
+        bye:<c> | noc:<old c or 0>:<name hex>:<new c or 0> | noreply:<caller c>:<serial> | gone:<c> | refused:<c> *)
 open Model_robust
 
 let rec pos_of_int (i : int) : positive =
@@ -52,6 +52,8 @@ let tok_of_out (o : mout out) : string =
   | OCore (_, Seen (c, raw)) -> Printf.sprintf "seen:%d:%s" (int_of_n c) (hex_of_bytes raw)
   | OCore (_, Hi c) -> Printf.sprintf "hi:%d" (int_of_n c)
   | OCore (_, Bye c) -> Printf.sprintf "bye:%d" (int_of_n c)
+  | OCore (_, Noc (name, o, nw)) -> Printf.sprintf "noc:%d:%s:%d" (int_of_n o) (hex_of_bytes name) (int_of_n nw)
+  | OCore (_, NoReply (c, sr)) -> Printf.sprintf "noreply:%d:%d" (int_of_n c) (int_of_n sr)
   | OGone c -> Printf.sprintf "gone:%d" (int_of_n c)
   | ORefused c -> Printf.sprintf "refused:%d" (int_of_n c)
 
